@@ -704,6 +704,27 @@ func (s *Server) GetStorage() *core.Storage {
 	return s.storage
 }
 
+// saveGCSafePointAsLeader stores the cluster GC safe point in a transaction that is applied only while this member
+// still holds the PD leadership AND the stored value is still the one the request was compared against (absent for 0).
+// gcSafePointLock serialises the load-compare-save of one member only: a write that was decided before the leadership
+// moved away and reaches etcd late must not overwrite what another leader has stored and acknowledged since, also
+// when the leadership has come back to this member in the meantime.
+func (s *Server) saveGCSafePointAsLeader(oldSafePoint, newSafePoint uint64) error {
+	key := path.Join(s.rootPath, core.GCSafePointPath())
+	unchanged := clientv3.Compare(clientv3.CreateRevision(key), "=", 0)
+	if oldSafePoint != 0 {
+		unchanged = clientv3.Compare(clientv3.Value(key), "=", core.EncodeGCSafePoint(oldSafePoint))
+	}
+	resp, err := s.member.GetLeadership().LeaderTxn(unchanged).Then(clientv3.OpPut(key, core.EncodeGCSafePoint(newSafePoint))).Commit()
+	if err != nil {
+		return errs.ErrEtcdKVPut.Wrap(err).GenWithStackByCause()
+	}
+	if !resp.Succeeded {
+		return errs.ErrEtcdTxnConflict.FastGenByArgs()
+	}
+	return nil
+}
+
 // SetStorage changes the storage only for test purpose.
 // When we use it, we should prevent calling GetStorage, otherwise, it may cause a data race problem.
 func (s *Server) SetStorage(storage *core.Storage) {
